@@ -219,7 +219,10 @@ Definition visit_object_method_call (E : cenv) (obj : operand) (cls : nat) (meth
 
 Definition visit_builtin_call (E : cenv) (f : builtin) (args : list operand) : M operand :=
   match f with
-  | BfConsole _ => emit_result T_VOID (RBuiltin f args)
+  | BfConsole _ =>
+      (* an empty list literal has no type: nothing could be sent to the stream (fix F27) *)
+      if existsb (fun a => match operand_tdesc a with DEmptyList => true | _ => false end) args then fail XOpUndetermined
+      else emit_result T_VOID (RBuiltin f args)
   | BfMax | BfMin =>
       match map ensure_concrete_string args with
       | [a; b] =>
